@@ -119,7 +119,14 @@ def mean_check(case):
     for j in range(1, n + 1):
         xu = np.asarray(x)
         G = float(np.max(np.abs(orc.irfftn(nf(orc.rfftn(xu)), N)))) if nf is not None else 0.0
-        bound += float(np.max(np.abs(xu))) + abs(dt) * G
+        # r = dt*|N(u)|/|u|: the ETDRK stage values are up to (1 + r) times larger than u and the products formed inside
+        # the pseudo-spectral evaluation (whose MEAN cancels, so it is not visible in |N|) up to (1 + r)^2 times; beyond
+        # r = 10 the step is a blow-up (amplitude 1 -> 600 in the case that prompted this) and says nothing about the
+        # bookkeeping of the mean
+        r_ = abs(dt) * G / (float(np.max(np.abs(xu))) + 1e-300)
+        if r_ > 10.0:
+            res.tag("history_stopped_nonlinear_blow_up")
+            break
         ok, x = res.lib("call", S, x, key=key)
         if not ok:
             return res
@@ -127,6 +134,14 @@ def mean_check(case):
         if not np.all(np.isfinite(y)) or np.max(np.abs(y)) > 1e3:
             res.tag("history_stopped_unstable")
             break
+        # the stages lie between the old and the new state: linearly growing modes (anti-diffusion) make the new state
+        # and its nonlinear term the larger ones
+        Gy = float(np.max(np.abs(orc.irfftn(nf(orc.rfftn(y)), N)))) if nf is not None else 0.0
+        ry_ = abs(dt) * Gy / (float(np.max(np.abs(y))) + 1e-300)
+        if ry_ > 10.0:
+            res.tag("history_stopped_nonlinear_blow_up")
+            break
+        bound += (max(float(np.max(np.abs(xu))), float(np.max(np.abs(y)))) + abs(dt) * max(G, Gy)) * (1.0 + max(r_, ry_)) ** 2
         steps = j
         want = (np.exp(lam0 * dt * j) * m0).real
         g = max(1.0, float(np.max(np.exp((lam0 * dt * j).real))))
@@ -333,11 +348,24 @@ def eq_check(case):
         base = np.ones((C,) + (N,) * D) * np.asarray(e, dtype=float).reshape((C,) + (1,) * D)
         eps = 1e-6 * max(1.0, max(abs(v) for v in e))
         worst_ = 0.0
+        # probes: a constant and, per axis and wavenumber, a cosine and a sine - derivative-bearing terms
+        # (convection u*.grad(delta), Cahn-Hilliard 3u*^2 Laplace(delta)) only respond to the latter; rounding noise
+        # lives in all modes
+        J = orc.own_grid(D, N, float(N))
+        kh = (N - 1) // 2
+        probes = [np.ones((N,) * D)]
+        for k_ in range(1, kh + 1):  # every wavenumber: the dealiasing removes the highest ones from the nonlinear term
+            for d_ax in range(D):
+                probes.append(np.cos(2 * math.pi * k_ * J[d_ax] / N))
+                probes.append(np.sin(2 * math.pi * k_ * J[d_ax] / N))
+            if D >= 2:
+                probes.append(np.cos(2 * math.pi * k_ * sum(J[d_ax] for d_ax in range(D)) / N))
         for c in range(C):
-            dvec = np.zeros_like(base)
-            dvec[c] = eps
-            d_ = (orc.irfftn(nf_lin(orc.rfftn(base + dvec)), N) - orc.irfftn(nf_lin(orc.rfftn(base - dvec)), N)) / (2 * eps)
-            worst_ = max(worst_, float(np.max(np.abs(d_))))
+            for pr_ in probes:
+                dvec = np.zeros_like(base)
+                dvec[c] = eps * pr_
+                d_ = (orc.irfftn(nf_lin(orc.rfftn(base + dvec)), N) - orc.irfftn(nf_lin(orc.rfftn(base - dvec)), N)) / (2 * eps)
+                worst_ = max(worst_, float(np.max(np.abs(d_))))
         return worst_
 
     leff = abs(lam0) + max([nprime(e) for e in eqs] + [0.0])
